@@ -238,37 +238,13 @@ pub fn family(tier: Tier) -> Vec<Config> {
             }
         }
     }
-    // poll-granular: a retried attempt may start in any poll round of a neighbour's step
-    for nsc in [2usize, 3] {
-        for hooks in [false, true] {
-            let mut cfg = Config::default();
-            cfg.feats = (0..nsc)
-                .map(|i| FeatSpec {
-                    scenarios: vec![scen(if i == 0 { &["retry(1)"] } else { &[] }, &[m, m])],
-                    ..Default::default()
-                })
-                .collect();
-            cfg.items = (0..nsc).map(Item::Feat).collect();
-            cfg.before = hooks;
-            cfg.after = hooks;
-            cfg.conc_builder = Some(Some(2));
-            cfg.plan.gates = GateMode::Steps;
-            cfg.plan.logs_before = 1;
-            cfg.gran = Gran::L1;
-            cfg.k_noprogress = 16;
-            let info = cfg.scen_infos()[0].clone();
-            let off = usize::from(hooks);
-            let chain = vec![Fault::Call(off, Outcome::PanicString), Fault::None];
-            if let Some((outcomes, worlds)) = crate::families::chain_plan(&info, hooks, hooks, &chain) {
-                cfg.plan.outcomes = outcomes;
-                cfg.plan.world_new = worlds;
-                cfg.bound = Some(if tier == Tier::Quick { 2 } else { 3 });
-                cfg.max_execs = if tier == Tier::Quick { 3_000 } else { 200_000 };
-                cfg.name = format!("trace/l1|n{nsc}|hooks{}", u8::from(hooks));
-                out.push(cfg);
-            }
-        }
-    }
+    // (No poll-granular (L1) configurations here: the tracing `Collector` hands span-close
+    // notifications out in the iteration order of a `HashMap` with a per-map random hasher
+    // (`tracing.rs` `notify_about_closing_spans`), which decides the order in which waiting
+    // attempts are woken; at quiescence granularity that order does not change the decision
+    // points, at poll granularity it does, and a replayed prefix then diverges once in a
+    // few million executions. Nondeterminism the harness does not own: not explored.)
+    let _ = Gran::L1;
     out
 }
 
